@@ -6,7 +6,11 @@ def main():
     repo, out = sys.argv[1], sys.argv[2]
     os.makedirs(out, exist_ok=True)
     import gen_consts
-    gen_consts.generate(repo, out)
+    try:
+        gen_consts.generate(repo, out)
+    except gen_consts.TranslateError as e:
+        print("translator: " + str(e))
+        sys.exit(2)
 
 if __name__ == "__main__":
     sys.path.insert(0, os.path.dirname(os.path.abspath(__file__)))
